@@ -19,6 +19,7 @@ import (
 	"runtime"
 	"strconv"
 	"strings"
+	"sync"
 	"sync/atomic"
 	"time"
 
@@ -38,6 +39,30 @@ type ioOp struct {
 type actConn struct {
 	net.Conn
 	inRead int32
+	rdlMu  sync.Mutex
+	rdl    time.Time
+	rdlSet bool
+}
+
+// the last read deadline the library set on the connection
+func (c *actConn) SetReadDeadline(t time.Time) error {
+	c.rdlMu.Lock()
+	c.rdl, c.rdlSet = t, true
+	c.rdlMu.Unlock()
+	return c.Conn.SetReadDeadline(t)
+}
+
+func (c *actConn) rdlObs() string {
+	c.rdlMu.Lock()
+	t := c.rdl
+	c.rdlMu.Unlock()
+	switch {
+	case t.IsZero():
+		return "none"
+	case t.Before(time.Unix(1000, 0)):
+		return "past"
+	}
+	return "ctxdl"
 }
 
 func (c *actConn) Read(b []byte) (int, error) {
@@ -353,7 +378,11 @@ func (r *ioRunner) run(ops []ioOp) {
 				for j, x := range data {
 					vals[j] = int(x)
 				}
-				r.log.Ev("OE", tr.M{"kind": kind, "err": errClass(err), "data": vals, "late": late, "helpers": ctxioHelpers()})
+				rdl := "unknown"
+				if brw == nil {
+					rdl = ac.rdlObs()
+				}
+				r.log.Ev("OE", tr.M{"kind": kind, "err": errClass(err), "data": vals, "late": late, "helpers": ctxioHelpers(), "rdl": rdl})
 				bump()
 				close(d)
 			}(op.Kind, op.N)
